@@ -593,3 +593,27 @@ Lemma build_imports_spec_proof : forall ds m, build ds = inl m ->
 Proof.
   intros ds m H. destruct (build_from_IMP ds empty_mod [] m WF_empty IMP_empty H) as [I _]. exact I.
 Qed.
+
+
+(* ------------------------------------------------------------ export / forward items resolve locally *)
+
+(* what MIR_link stores in an export or forward item of a built module (item_tab_find in the
+   module's own table): the module's definition of that name - whatever the declaration order -
+   and NULL when the module only declares the name *)
+Lemma local_ref_spec_proof : forall ds m id, build ds = inl m ->
+  (forall i t, nth_error (mitems m) i = Some t -> is_def (ik t) = true ->
+               local_ref id m (iname t) = Some (DMod id i (ik t))) /\
+  (forall n, (forall k, In (k, n) ds -> is_def k = false) -> local_ref id m n = None).
+Proof.
+  intros ds m id H. pose proof (build_from_WF ds empty_mod [] m WF_empty H) as W. simpl in W.
+  split.
+  - intros i t Hi Hd. unfold local_ref. rewrite (wf_def m ds W i t Hi Hd), Hi, Hd. reflexivity.
+  - intros n Hn. unfold local_ref. destruct (tab_find m n) as [ti|] eqn:Ht; [|reflexivity].
+    destruct (wf_tab m ds W n ti Ht) as (t & A & B & C). rewrite A.
+    destruct (is_def (ik t)) eqn:Hd; [|reflexivity]. exfalso.
+    assert (Hin : In (kn t) (filter is_def_decl ds)).
+    { rewrite <- (wf_order m ds W). apply in_map. apply filter_In. split; [|exact Hd].
+      eapply nth_error_In; exact A. }
+    apply filter_In in Hin. destruct Hin as [Hin _]. unfold kn in Hin. rewrite B in Hin.
+    specialize (Hn _ Hin). rewrite Hd in Hn. discriminate.
+Qed.
